@@ -89,6 +89,7 @@ type dCfg struct {
 	Pauses     []*dPause
 	Pad        int // 0 small, 1 >500B, 2 >64KiB payloads for some messages
 	CloseEarly bool
+	FaultW     int           // wrapped writer misbehaves: 1 = some messages are always refused with (0, error), 2 = some messages are always only half accepted
 	Hookless   bool          // no hook events are recorded (race-detector runs: the hook's own mutex would add happens-before edges)
 	Script     func(r *dRun) // directed scenario driver (replaces the default producers)
 	Name       string
@@ -99,7 +100,7 @@ func (c *dCfg) String() string {
 	if c.Poll > 0 {
 		mode = fmt.Sprintf("poller(%v)", c.Poll)
 	}
-	return fmt.Sprintf("{%s P=%d W=%d size=%d %s block=%v slow=%d paced=%v pad=%d closeEarly=%v hookless=%v}", c.Name, c.P, c.W, c.Size, mode, c.Block, c.SlowW, c.Paced, c.Pad, c.CloseEarly, c.Hookless)
+	return fmt.Sprintf("{%s P=%d W=%d size=%d %s block=%v slow=%d paced=%v pad=%d closeEarly=%v hookless=%v faultW=%d}", c.Name, c.P, c.W, c.Size, mode, c.Block, c.SlowW, c.Paced, c.Pad, c.CloseEarly, c.Hookless, c.FaultW)
 }
 
 type dWrite struct {
@@ -148,6 +149,9 @@ type dRun struct {
 	prodG sync.Map // goid -> producer index
 
 	// verdicts
+	sameID        string // consecutive deliveries of one id (livelock detection)
+	sameN         int
+	Livelock      string // set when the wrapped writer was offered the same message >= 2000 times in a row
 	StallState    string // "", "parked", "polling", "inconclusive"
 	StallDump     string
 	Quiesced      bool
@@ -316,11 +320,43 @@ func (w dRecW) Write(p []byte) (int, error) {
 	atomic.AddInt32(&r.inflight, -1)
 	exit := atomic.AddInt64(&r.clk, 1)
 	r.dmu.Lock()
-	r.deliveries = append(r.deliveries, dDelivery{id, entry, exit, sum, n, changed, infl})
+	if id == r.sameID {
+		r.sameN++
+	} else {
+		r.sameID, r.sameN = id, 1
+	}
+	same := r.sameN
+	if len(r.deliveries) < 20000 {
+		r.deliveries = append(r.deliveries, dDelivery{id, entry, exit, sum, n, changed, infl})
+	}
+	seq := len(r.deliveries)
 	r.dmu.Unlock()
 	atomic.AddInt64(&r.deliveredN, 1)
+	if same >= 2000 {
+		// the consumer keeps offering the same message: a livelock. Break it by accepting, so the
+		// process can go on; the run is flagged.
+		r.dmu.Lock()
+		r.Livelock = fmt.Sprintf("the wrapped writer was offered %s %d times in a row", id, same)
+		r.dmu.Unlock()
+		return len(p), nil
+	}
+	_ = seq
+	// persistent per-message faults: every message whose checksum is divisible by 3 is refused
+	// (FaultW 1) or only half accepted (FaultW 2), however often it is offered
+	if sum%3 == 0 {
+		switch r.cfg.FaultW {
+		case 1:
+			return 0, errWrapped
+		case 2:
+			if len(p) > 1 {
+				return len(p) / 2, nil
+			}
+		}
+	}
 	return len(p), nil
 }
+
+var errWrapped = fmt.Errorf("wrapped writer: broken pipe")
 
 func (r *dRun) payload(prod, i int) []byte {
 	pad := 8
